@@ -342,12 +342,15 @@ def compare_stream(driver, s):
     tdefs = {}
     ti = 0
     bad = 0
+    skipped = 0
     for j in range(n):
         if got[j] != exp[j]:
             # fault positions: the implementation's k-th call may lie beyond the model's last call when the
             # implementation splits a transfer into more calls than the model does (the property does not fix
             # the chunking; status and no-further-calls are checked on the implementation itself)
             if got[j].startswith('err none') and s.m[s.pairs[j][0]].startswith('fault '):
+                skipped += 1
+                s.stats['fault_positions_beyond_model_calls'] = s.stats.get('fault_positions_beyond_model_calls', 0) + 1
                 continue
             bad += 1
             if len(dis) < 200:
@@ -361,7 +364,7 @@ def compare_stream(driver, s):
                 toks = op.split(' ')
                 tid = toks[2] if toks[0] == 'fault' else (toks[1] if len(toks) > 1 else '')
                 dis.append({'kind': 'result', 'op': op[:20000], 'type': tdefs.get(tid, '?'), 'impl': exp[j][:20000], 'model': got[j][:20000]})
-    return n - bad, dis
+    return n - bad - skipped, dis
 
 
 class Summary:
